@@ -127,6 +127,9 @@ func commandKinds(layoutPath string) []stepSpec {
 		k("server --exclude-main", false, "server", "-q", "-A", "TodoList", "--exclude-main"),
 		k("server --skip-support --strict-responders", false, "server", "-q", "-A", "TodoList", "--skip-support", "--strict-responders"),
 		k("client --skip-models -c apiclient", false, "client", "-q", "-A", "TodoList", "--skip-models", "-c", "apiclient"),
+		// the contributed templates come with options of their own: stratoscale regenerates its (not user-editable) configure file
+		k("server --template stratoscale", true, "server", "-q", "-A", "TodoList", "--template", "stratoscale"),
+		k("client --template stratoscale", false, "client", "-q", "-A", "TodoList", "--template", "stratoscale"),
 	}
 }
 
